@@ -328,3 +328,6 @@ B('C18.first-directive-only', ['C18'], [(P + 'common/field.py',
   "                else:\n                    components[attr_to_component_name_dict[name].get_canonical_name()] = components.pop(component)\n                    break\n",
   "                else:\n                    components[attr_to_component_name_dict[name].get_canonical_name()] = components.pop(component)\n                    break\n                break\n")],
   mention=['C18.R3'])
+B('C10.derived-items-prepended', ['C10'], [(P + 'common/parse.py', "            unparsed_bytes = unparsed_bytes[parsed_length:]\n            items.append(item)\n\n        return items, items_size",
+                                             "            unparsed_bytes = unparsed_bytes[parsed_length:]\n            items.insert(0, item)\n\n        return items, items_size")], mention=['C10.R4'])
+B('C03.text-item-stops-early', ['C03'], [(P + 'common/classes.py', "        parser.parse_string_array('tags', '-')\n", "        parser.parse_string_array('tags', '-', max_item_num=3)\n")], mention=['LanguageTag'])
